@@ -173,3 +173,25 @@ theorem C05_bytes_single (ver dev mt stream seq0 : Nat)
   exact ⟨rfl, rfl, rfl, rfl, rfl, rfl, rfl, rfl⟩
 
 end AsamCmp.C05b
+
+namespace AsamCmp.C05b
+open AsamCmp
+
+/-- What happens beyond the hypothesis `total ≤ 65535` of the C05 theorems: the length the decoder
+    writes into the reassembled header — and with which it then reads the payload back — is the
+    accumulated length modulo 2^16.  So a message whose segments declare more than 65535 bytes in
+    total is delivered truncated to `total mod 65536` bytes (recorded as an open finding for C05 in
+    known-findings.txt; replayed on the real decoder by the check's `over-65535` case). -/
+theorem reassembled_length_wraps (x : Bytes) (h : 16 ≤ x.length) :
+    beAt (fixLen x) 14 2 = (x.length - 16) % 65536 := by
+  have e : beAt (fixLen x) 14 2 = ((x.length % 65536 + 65536 - 16) % 65536) % 65536 := by
+    unfold fixLen writeAt beAt
+    rw [AsamCmp.slice_mid _ _ _ 14 2 (by simp; omega) (by simp), beDec_beEnc]
+  rw [e]
+  omega
+
+/-- the full C05 statement is false of the model (and of the code) without the length bound: a
+    concrete accumulated length whose delivered length differs -/
+example : (65536 + 16 + 1964 - 16) % 65536 ≠ 65536 + 1964 := by decide
+
+end AsamCmp.C05b
